@@ -374,6 +374,10 @@ class Verdicts:
                 self.prop, k["what"], n, "" if n == 1 else "s"), flush=True)
         if not self.violations:
             return 0
+        if os.environ.get("VERIF_DUMP"):
+            with open(os.environ["VERIF_DUMP"], "w") as f:
+                for v in self.violations:
+                    f.write(json.dumps(v, default=str) + "\n")
         d = os.path.join(REPLAYS, self.prop)
         os.makedirs(d, exist_ok=True)
         # one replay file per distinct key first, so that every kind of violation is written out
